@@ -159,7 +159,8 @@ class World:
         # worthless coins whose denom is spelled exactly like a (future) contract address: kind-confusion probes
         self.addr_denoms = ["contract%d" % i for i in range(2, 8)]
         for d in self.addr_denoms:
-            bals.append(["attacker", d, str(BAL)])
+            for a in ("attacker", "owner", "lp1", "trader1"):
+                bals.append([a, d, str(BAL)])
         r = srv.send({"op": "new", "balances": bals})
         self.codes = r["v"]
         self.factory = self._inst("factory", "owner", {"pair_code_id": self.codes["pair"], "token_code_id": self.codes["cw20"]}, admin="owner")
